@@ -243,11 +243,19 @@ def gen_scenario(rng, thorough=False):
     ops = [[6, 0, 0, 0, 0] for _ in range(depth)]
     rounds = rng.randint(3, 7 if thorough else 5)
     w = max(2, n // 2)
+    # pure: only the root filters, with windows of constant width, so that
+    # all masks below the root stay byte-identical while the events change
+    # (a change of events must be noticed at any distance: seed C04-3)
+    pure = rng.random() < 0.25
     for _ in range(rounds):
-        wl = rng.randint(0, depth - 1)          # the windowed level
+        wl = 0 if pure else rng.randint(0, depth - 1)   # the windowed level
         a = rng.randint(0, n - 1)
-        ops.append([0, wl, 0, a, min(n - 1, a + rng.randint(1, w))])
-        if rng.random() < 0.3:
+        if pure:
+            a = rng.randint(0, n - w)
+            ops.append([0, 0, 0, a, a + w - 1])
+        else:
+            ops.append([0, wl, 0, a, min(n - 1, a + rng.randint(1, w))])
+        if not pure and rng.random() < 0.3:
             ops.append([0, rng.randint(0, depth - 1), 1, rng.randint(0, 6),
                         rng.randint(6, 12)])
         ops.append([3, 0, 0, 0, 0])
@@ -259,7 +267,7 @@ def gen_scenario(rng, thorough=False):
         if r < 0.25:
             ops.append([2, rng.randint(0, depth), rng.randint(0, 1),
                         rng.randint(0, 50), 0])
-        elif r < 0.35:
+        elif r < 0.35 and not pure:
             ops.append([4, rng.randint(0, depth), rng.randint(0, 1), 0, 0])
         r = rng.random()
         if r < 0.4:
